@@ -190,7 +190,8 @@ def run_case(case, rng_seed):
         try:
             nxt = L.apply_impl(cur, [tuple(p) for p in step["pairs"]], step["pass_as"])
         except Exception as ex:  # noqa: BLE001
-            fails.append((f"exception_{type(ex).__name__}", f"{str(ex)[:160]} for {step['pairs']}"))
+            fails.append((case.get("exc_signature") or f"exception_{type(ex).__name__}",
+                          f"rename_symbols raised {type(ex).__name__}: {str(ex)[:160]} for {step['pairs']}"))
             break
         if L.model_digest(cur) != dcur:
             fails.append(("original_model_mutated", f"the model rename_symbols was called on changed ({step['kind']})"))
@@ -219,6 +220,14 @@ def main():
     small = {"etac_ll_hel", "pipi2_hel", "gpipi_hel", "d0kkk_hel_dpd", "gpipi_hel_bw", "d0kkk_hel_bw"}
     failures, kinds, samples, distinct = [], {}, [], set()
     evaluations = 0
+    for case in L.fixed_cases():
+        distinct.add(json.dumps(case, sort_keys=True))
+        for s_ in case["steps"]:
+            kinds[s_["kind"]] = kinds.get(s_["kind"], 0) + 1
+            evaluations += 1
+        for sig, what in run_case(case, case["rng"]):
+            if not any(f["signature"] == sig for f in failures):
+                failures.append({"signature": sig, "what": f"{what} (model {case['model']})", "case": case})
     for i in range(n):
         name = zoo[i % len(zoo)]
         m = L.build(name)
